@@ -24,6 +24,15 @@ func init() {
 		return []*seqmc.Spec{
 			mk("BsTree(<)", func(a, b int) bool { return a < b }),
 			mk("BsTree(>)", func(a, b int) bool { return a > b }),
+			// a strict order that is neither ascending nor descending in the natural order of the keys:
+			// even keys before odd ones, ascending within each class ("any strict comparator")
+			mk("BsTree(evens-first)", func(a, b int) bool {
+				pa, pb := a&1, b&1 // parity (also for the negative probe keys of the observer suite)
+				if pa != pb {
+					return pa == 0
+				}
+				return a < b
+			}),
 		}
 	}
 }
@@ -127,6 +136,21 @@ func (s *bstSys) Observe(c *seqmc.Ctx) {
 	if fmt.Sprint(got) != fmt.Sprint(want) {
 		c.Fail(s.name+".Traverse/differs-from-ordered-map", "Traverse visited %v, want %v", got, want)
 	}
+	// a traversal started from inside a traversal's callback (all-pairs loops): both must still visit
+	// every present key once, in order
+	if len(want) > 0 && len(want) <= 4 {
+		var outer, inner []string
+		s.t.Traverse(func(it bstree.Item[int, string]) {
+			outer = append(outer, fmt.Sprintf("%d=%s", it.Key, it.Val))
+			inner = inner[:0]
+			s.t.Traverse(func(in bstree.Item[int, string]) { inner = append(inner, fmt.Sprintf("%d=%s", in.Key, in.Val)) })
+		})
+		if fmt.Sprint(outer) != fmt.Sprint(want) || fmt.Sprint(inner) != fmt.Sprint(want) {
+			c.Fail(s.name+".Traverse/nested-traversal-differs", "Traverse with a Traverse inside its callback visited %v (inner, last round: %v), want %v", outer, inner, want)
+		}
+	}
 }
 
-func (s *bstSys) Key() string { return seqmc.Dump(s.t) + "|" + fmt.Sprint(s.sorted(), s.model, s.drift) }
+func (s *bstSys) Key() string {
+	return seqmc.Dump(s.t) + "|" + fmt.Sprint(s.sorted(), s.model, s.drift)
+}
